@@ -357,6 +357,12 @@ class Models(object):
 
         weight, log_flux, log_error = source.get_log_fluxes()
 
+        # Points that are not used in the fit (valid = 0 or 9) may carry
+        # placeholder values whose logarithm is not finite
+        unused = (source.valid == 0) | (source.valid == 9)
+        log_flux[unused] = 0.
+        log_error[unused] = 0.
+
         model_fluxes = self.log_fluxes_mJy
 
         if model_fluxes.ndim == 2:  # Aperture-independent fitting
